@@ -1,4 +1,5 @@
 import PRV.Model.Handshake
+import PRV.Gen.Wiring
 /-
 C15 — Handshake correlated and ordered per connection; contract routing correct.
 Per-event theorems about `Model/Handshake.lean` for every connection state (hence every order of
@@ -310,5 +311,20 @@ example :
     let s2 := (step s1 (.mAuthorize "3" "acct.rig7")).1
     s1.subscribed = true ∧ s2.handlers.find? (·.1 = "3") = some ("3", .authorize) ∧
     (step s2 (.pResult "3" true "ok")).1.finished = some .connected := by decide
+
+
+/-! ### one connection = one state also outside the proxy: the per-connection handler (regenerated) -/
+
+def lookupW (l : List (String × String)) (k : String) : Option String := (l.find? (·.1 = k)).map (·.2)
+
+/-- the per-connection handler gives every connection *its own copy* of the configured destination: the proxy and the
+scheduler are built on `url`, and `url` is `lib.CopyURL(defaultDestUrl)` — the handshake writes the miner's worker name
+through that pointer (`onMiningAuthorize`), so without the copy one connection would edit every later connection's
+destination account -/
+theorem source_handler_clones_destination :
+    lookupW PRV.Gen.Wiring.handlerProxyArgs "destURL" = some "url" ∧
+    lookupW PRV.Gen.Wiring.handlerSchedulerArgs "defaultDest" = some "url" ∧
+    lookupW PRV.Gen.Wiring.handlerLocals "url" = some "lib.CopyURL(defaultDestUrl)" ∧
+    lookupW PRV.Gen.Wiring.proxyFields "destURL" = some "atomic.NewPointer(destURL)" := by decide
 
 end PRV.Props.C15
